@@ -1,0 +1,236 @@
+//go:build verif
+
+package kafka
+
+// Add-only export file for the verification harness in /verif (property C15:
+// ConsumerGroup generations).  Nothing here is compiled into normal builds.
+
+// VerifNewGeneration builds a Generation the way nextGeneration does (fresh done and
+// joined channels, no coordinator connection, silent loggers) without starting the
+// heartbeat.
+func VerifNewGeneration(id int32, group, member string) *Generation {
+	return &Generation{
+		ID:       id,
+		GroupID:  group,
+		MemberID: member,
+		done:     make(chan struct{}),
+		joined:   make(chan struct{}),
+		log:      func(func(Logger)) {},
+		logError: func(func(Logger)) {},
+	}
+}
+
+// VerifGenState is a snapshot of the accounting fields taken under g.lock.
+type VerifGenState struct {
+	Closed   bool
+	Routines int
+	Done     bool // done channel closed
+	Joined   bool // joined channel closed
+}
+
+// VerifState reads the accounting fields of the generation under its lock.
+func (g *Generation) VerifState() VerifGenState {
+	g.lock.Lock()
+	defer g.lock.Unlock()
+	st := VerifGenState{Closed: g.closed, Routines: g.routines}
+	select {
+	case <-g.done:
+		st.Done = true
+	default:
+	}
+	select {
+	case <-g.joined:
+		st.Joined = true
+	default:
+	}
+	return st
+}
+
+// VerifClose calls the unexported close.
+func (g *Generation) VerifClose() { g.close() }
+
+// VerifDoneClosed reports whether cg.done has been closed.
+func (cg *ConsumerGroup) VerifDoneClosed() bool {
+	select {
+	case <-cg.done:
+		return true
+	default:
+		return false
+	}
+}
+
+// VerifMember is one member of a JoinGroup answer (metadata is encoded by the hook).
+type VerifMember struct {
+	ID       string
+	Topics   []string
+	UserData []byte
+	RawMeta  []byte // when non-nil, used verbatim instead of the encoding of Topics/UserData
+}
+
+// VerifJoinAnswer is the scripted answer to JoinGroup.
+type VerifJoinAnswer struct {
+	ErrorCode     int16
+	GenerationID  int32
+	GroupProtocol string
+	LeaderID      string
+	MemberID      string
+	Members       []VerifMember
+}
+
+// VerifCoordinator is the exported shape of the unexported coordinator interface.
+// Error codes are returned separately from transport errors: for FindCoordinator,
+// JoinGroup and SyncGroup a non-zero code is delivered in the response's ErrorCode
+// field when asField is true (consumergroup.go converts it) and as a kafka.Error
+// otherwise (what Conn does); for the other calls always as a kafka.Error.
+type VerifCoordinator interface {
+	Close() error
+	FindCoordinator(key string) (host string, port int32, code int16, asField bool, err error)
+	JoinGroup(group, member string, protocols []string) (ans VerifJoinAnswer, asField bool, err error)
+	SyncGroup(group string, generation int32, member string, nassign int) (code int16, asField bool, assign map[string][]int32, raw []byte, err error)
+	LeaveGroup(group, member string) (code int16, err error)
+	Heartbeat(group string, generation int32, member string) (code int16, err error)
+	OffsetFetch(group string, topics map[string][]int32) (offsets map[string]map[int32]int64, code int16, err error)
+	OffsetCommit(group string, generation int32, member string) (code int16, err error)
+	ReadPartitions(topics ...string) ([]Partition, error)
+}
+
+type verifCoord struct{ c VerifCoordinator }
+
+func (v verifCoord) Close() error { return v.c.Close() }
+
+func (v verifCoord) findCoordinator(req findCoordinatorRequestV0) (findCoordinatorResponseV0, error) {
+	host, port, code, asField, err := v.c.FindCoordinator(req.CoordinatorKey)
+	if err != nil {
+		return findCoordinatorResponseV0{}, err
+	}
+	if code != 0 && !asField {
+		return findCoordinatorResponseV0{}, Error(code)
+	}
+	return findCoordinatorResponseV0{
+		ErrorCode:   code,
+		Coordinator: findCoordinatorResponseCoordinatorV0{NodeID: 1, Host: host, Port: port},
+	}, nil
+}
+
+func (v verifCoord) joinGroup(req joinGroupRequest) (joinGroupResponse, error) {
+	protos := make([]string, 0, len(req.GroupProtocols))
+	for _, p := range req.GroupProtocols {
+		protos = append(protos, p.ProtocolName)
+	}
+	ans, asField, err := v.c.JoinGroup(req.GroupID, req.MemberID, protos)
+	if err != nil {
+		return joinGroupResponse{}, err
+	}
+	if ans.ErrorCode != 0 && !asField {
+		return joinGroupResponse{}, Error(ans.ErrorCode)
+	}
+	res := joinGroupResponse{
+		ErrorCode:     ans.ErrorCode,
+		GenerationID:  ans.GenerationID,
+		GroupProtocol: ans.GroupProtocol,
+		LeaderID:      ans.LeaderID,
+		MemberID:      ans.MemberID,
+	}
+	for _, m := range ans.Members {
+		meta := m.RawMeta
+		if meta == nil {
+			meta = groupMetadata{Version: 1, Topics: m.Topics, UserData: m.UserData}.bytes()
+		}
+		res.Members = append(res.Members, joinGroupResponseMember{MemberID: m.ID, MemberMetadata: meta})
+	}
+	return res, nil
+}
+
+func (v verifCoord) syncGroup(req syncGroupRequestV0) (syncGroupResponseV0, error) {
+	code, asField, assign, raw, err := v.c.SyncGroup(req.GroupID, req.GenerationID, req.MemberID, len(req.GroupAssignments))
+	if err != nil {
+		return syncGroupResponseV0{}, err
+	}
+	if code != 0 && !asField {
+		return syncGroupResponseV0{}, Error(code)
+	}
+	if raw == nil {
+		raw = groupAssignment{Version: 1, Topics: assign}.bytes()
+	}
+	return syncGroupResponseV0{ErrorCode: code, MemberAssignments: raw}, nil
+}
+
+func (v verifCoord) leaveGroup(req leaveGroupRequestV0) (leaveGroupResponseV0, error) {
+	code, err := v.c.LeaveGroup(req.GroupID, req.MemberID)
+	if err != nil {
+		return leaveGroupResponseV0{}, err
+	}
+	if code != 0 {
+		return leaveGroupResponseV0{}, Error(code)
+	}
+	return leaveGroupResponseV0{}, nil
+}
+
+func (v verifCoord) heartbeat(req heartbeatRequestV0) (heartbeatResponseV0, error) {
+	code, err := v.c.Heartbeat(req.GroupID, req.GenerationID, req.MemberID)
+	if err != nil {
+		return heartbeatResponseV0{}, err
+	}
+	if code != 0 {
+		return heartbeatResponseV0{}, Error(code)
+	}
+	return heartbeatResponseV0{}, nil
+}
+
+func (v verifCoord) offsetFetch(req offsetFetchRequestV1) (offsetFetchResponseV1, error) {
+	topics := map[string][]int32{}
+	for _, t := range req.Topics {
+		topics[t.Topic] = t.Partitions
+	}
+	offsets, code, err := v.c.OffsetFetch(req.GroupID, topics)
+	if err != nil {
+		return offsetFetchResponseV1{}, err
+	}
+	if code != 0 {
+		return offsetFetchResponseV1{}, Error(code)
+	}
+	var res offsetFetchResponseV1
+	for _, t := range req.Topics {
+		r := offsetFetchResponseV1Response{Topic: t.Topic}
+		for _, p := range t.Partitions {
+			off, ok := offsets[t.Topic][p]
+			if !ok {
+				off = -1
+			}
+			r.PartitionResponses = append(r.PartitionResponses, offsetFetchResponseV1PartitionResponse{Partition: p, Offset: off})
+		}
+		res.Responses = append(res.Responses, r)
+	}
+	return res, nil
+}
+
+func (v verifCoord) offsetCommit(req offsetCommitRequestV2) (offsetCommitResponseV2, error) {
+	code, err := v.c.OffsetCommit(req.GroupID, req.GenerationID, req.MemberID)
+	if err != nil {
+		return offsetCommitResponseV2{}, err
+	}
+	if code != 0 {
+		return offsetCommitResponseV2{}, Error(code)
+	}
+	return offsetCommitResponseV2{}, nil
+}
+
+func (v verifCoord) readPartitions(topics ...string) ([]Partition, error) {
+	return v.c.ReadPartitions(topics...)
+}
+
+// VerifNewConsumerGroup is NewConsumerGroup with config.connect replaced by the
+// harness's scripted coordinator (the seam consumergroup_test.go uses).
+func VerifNewConsumerGroup(config ConsumerGroupConfig, connect func(brokers ...string) (VerifCoordinator, error)) (*ConsumerGroup, error) {
+	config.connect = func(_ *Dialer, brokers ...string) (coordinator, error) {
+		c, err := connect(brokers...)
+		if err != nil {
+			return nil, err
+		}
+		return verifCoord{c}, nil
+	}
+	return NewConsumerGroup(config)
+}
+
+// VerifDone exposes the generation's done channel (what genCtx.Done returns).
+func (g *Generation) VerifDone() <-chan struct{} { return g.done }
